@@ -52,6 +52,10 @@ CloseIdx(s, i, d) == IF i > Len(s) THEN 0
 (* s[1] = "{" : the content and the rest *)
 GroupOf(s) == LET j == CloseIdx(s, 2, 1) IN [ok |-> j > 0, body |-> SubSeq(s, 2, j - 1), rest |-> SubSeq(s, j + 1, Len(s))]
 
+(* blank tokens in front of an undelimited argument are skipped (TeX: "undelimited parameters skip spaces"; readArgument strips them) *)
+RECURSIVE SkipSp(_)
+SkipSp(s) == IF s # <<>> /\ s[1] = " " THEN SkipSp(Tail(s)) ELSE s
+
 RECURSIVE FirstIdx(_, _, _)
 FirstIdx(s, t, i) == IF i > Len(s) THEN 0 ELSE IF s[i] = t THEN i ELSE FirstIdx(s, t, i + 1)
 
@@ -98,11 +102,12 @@ MatchRuleP(p, s, args) ==
     ELSE LET d == Lits(Tail(p))
              pnext == SubSeq(p, 2 + Len(d), Len(p))
          IN IF d = <<>>
-            THEN (* undelimited *)
-                 IF s = <<>> THEN [ok |-> FALSE, args |-> args, rest |-> s]
-                 ELSE IF s[1] = "{" THEN LET g == GroupOf(s) IN
+            THEN (* undelimited: blanks skipped, then one token or one group *)
+                 LET t == SkipSp(s) IN
+                 IF t = <<>> THEN [ok |-> FALSE, args |-> args, rest |-> s]
+                 ELSE IF t[1] = "{" THEN LET g == GroupOf(t) IN
                                          IF g.ok THEN MatchRuleP(pnext, g.rest, Append(args, g.body)) ELSE [ok |-> FALSE, args |-> args, rest |-> s]
-                 ELSE MatchRuleP(pnext, Tail(s), Append(args, <<s[1]>>))
+                 ELSE MatchRuleP(pnext, Tail(t), Append(args, <<t[1]>>))
             ELSE LET i == DelimPos(s, d, 1, 0) IN
                  IF i = 0 THEN [ok |-> FALSE, args |-> args, rest |-> s]
                  ELSE MatchRuleP(pnext, SubSeq(s, i + Len(d), Len(s)), Append(args, StripOuter(SubSeq(s, 1, i - 1))))
@@ -113,7 +118,8 @@ MatchRule(p, s) == LET l == Lits(p) IN
 
 (* ---------- machine layer: Definition.invoke ---------- *)
 (* readArgument: one token, or one brace group (returned without its braces) *)
-ReadArg(s) == IF s = <<>> THEN [ok |-> FALSE, arg |-> <<>>, rest |-> s]
+ReadArg(s0) == LET s == SkipSp(s0) IN          \* readArgument(stripLeadingWhitespace)
+              IF s = <<>> THEN [ok |-> FALSE, arg |-> <<>>, rest |-> s]
               ELSE IF s[1] = "{" THEN LET g == GroupOf(s) IN [ok |-> g.ok, arg |-> g.body, rest |-> g.rest]
               ELSE [ok |-> TRUE, arg |-> <<s[1]>>, rest |-> Tail(s)]
 
